@@ -148,7 +148,7 @@ Theorem c12_codes_agree :
   app_response_too_large_written = app_response_too_large_mapped
   /\ process_reply FTooLarge = RespTooLarge
   /\ request_limit TNats = nats_max /\ publish_limit PNats = nats_max.
-Proof. repeat split. Qed.
+Proof. exact codes_agree. Qed.
 Print Assumptions c12_codes_agree.
 
 (** What the defect F5 was (pinned code): a string went past the limit unnoticed; the repaired
